@@ -308,10 +308,22 @@ def _run_svd(case):
     V0 = R.rand_unitary(g, batch, n, dtype)[..., :, :r]
     sc = R.pick(g, [1.0, 0.5, 2.0], batch) if case.get("affine", True) else torch.ones(tuple(batch), dtype=torch.float64)
     S0 = sc[..., None] * torch.tensor(sv, dtype=torch.float64)          # (*batch, r)
-    A = (U0 * S0.to(dtype)[..., None, :]) @ R.ct(V0)
+    herm = bool(case.get("herm")) and m == n
+    if herm:
+        # a Hermitian *indefinite* square operator, flagged Hermitian: its singular values are |eigenvalues|, so a selection made on
+        # the signed eigenvalues would pick the wrong triplets
+        sgn = torch.where(torch.rand((r,), generator=g) < 0.5, -1.0, 1.0).to(torch.float64)
+        if r >= 2:
+            sgn[0], sgn[-1] = 1.0, -1.0
+        A = (U0 * (S0 * sgn).to(dtype)[..., None, :]) @ R.ct(U0)
+        A = 0.5 * (A + R.ct(A))
+    else:
+        A = (U0 * S0.to(dtype)[..., None, :]) @ R.ct(V0)
     kind = case["aop"]
+    if herm and kind not in R.HERM_KINDS:
+        kind = "mv"                                    # the Hermitian-flagged operator kinds only
     Aleaves = R.split_leaves(kind, A, g)
-    Aop = R.make_operator(kind, Aleaves, False)
+    Aop = R.make_operator(kind, Aleaves, herm)
     smin = float(S0.min())
     smax = max(float(S0.max()), R.leaves_scale(kind, Aleaves))      # data scale (see ref_c05.leaves_scale)
     k = r if case["k"] is None else case["k"]
@@ -330,7 +342,7 @@ def _run_svd(case):
     labels = ["svd_method=%s" % method, "svd_mode=%s" % ("lowest" if low else "uppest"), "svd_shape=%s" % ("tall" if m > n else ("wide" if m < n else "square")),
               "svd_aop=%s" % kind, "svd_dtype=%s" % case["dtype"], "svd_spectrum=%s" % spec, "svd_cut=%s" % cut,
               "svd_k=%s" % ("none" if case["k"] is None else ("full" if k == r else "partial")), "svd_batch=%d" % len(batch),
-              "svd_modestr=%s" % case["mode"], "svd_modearg=%s" % case["modearg"]]
+              "svd_modestr=%s" % case["mode"], "svd_modearg=%s" % case["modearg"], "svd_hermitian_flagged=%s" % herm]
 
     def call():
         if case["modearg"] == "default":      # documented default is "uppest"
@@ -574,7 +586,7 @@ def svd_case_st(draw, tier="quick"):
         opts["min_eps"] = draw(st.sampled_from([1e-7, 1e-8, 1e-9]))
     return {"m": m, "n": n, "sv": sv, "dtype": dtype, "batch": batch, "aop": draw(st.sampled_from(R.GEN_KINDS)), "k": k, "mode": mode,
             "modearg": modearg, "method": method, "opts": opts, "nograd": draw(st.sampled_from([False, False, True])),
-            "seed": draw(st.integers(0, 2 ** 31 - 1))}
+            "herm": draw(st.sampled_from([False, False, True])), "seed": draw(st.integers(0, 2 ** 31 - 1))}
 
 
 def rank_deficient_expansion_region(vals, k):
